@@ -409,6 +409,9 @@ type ChunkReader struct {
 	Data   []byte
 	Sizes  []int
 	i, pos int
+	// EOFWithData: the last bytes are returned together with io.EOF (as HTTP bodies of known length,
+	// decompressors and iotest.DataErrReader do)
+	EOFWithData bool
 }
 
 func (c *ChunkReader) Read(p []byte) (int, error) {
@@ -431,5 +434,8 @@ func (c *ChunkReader) Read(p []byte) (int, error) {
 	}
 	copy(p, c.Data[c.pos:c.pos+n])
 	c.pos += n
+	if c.EOFWithData && c.pos == len(c.Data) {
+		return n, io.EOF // the io.Reader contract allows the last bytes and the end in one call
+	}
 	return n, nil
 }
